@@ -108,7 +108,7 @@ theorem entryOK_cases {c : Comp} {b : Nat} {e : List Nat} (h : entryOK c b e = t
     match e, h1 with
     | [p, x, y], h1 =>
       simp only [Bool.and_eq_true, beq_iff_eq] at h1
-      exact ⟨x, y, by rw [h1.1.1.1], h1.1.1.2, h1.1.2, h1.2⟩
+      exact ⟨x, y, by rw [h1.1.1.1], h1.1.1.2, h1.1.2, by rw [hexPair_eq_spec]; exact h1.2⟩
 
 theorem entryOK_stop {c : Comp} {b : Nat} {e : List Nat} (h : entryOK c b e = true) :
     ∀ ch ∈ e, (stopSet c).contains ch = false := by
@@ -617,6 +617,15 @@ theorem stops_ok :
     notIn queryStop 35 = false ∧ notIn queryStop 38 = true ∧ notIn queryStop 61 = true := by
   decide
 
+/-- more facts about the regenerated classes of `_URL_RE`, needed when the scheme / authority groups do
+    not match -/
+theorem stops_ok2 :
+    notIn schemeStop 47 = false ∧ notIn schemeStop 63 = false ∧ notIn schemeStop 35 = false ∧
+    schemeStop.all (fun c => c == 58 || c == 47 || c == 63 || c == 35) = true := by decide
+
+/-- `scheme:` or nothing -/
+def spart (scheme : Text) : Text := if scheme ≠ [] then scheme ++ [58] else []
+
 def qpart (qs : Text) : Text := if qs ≠ [] then 63 :: qs else []
 def fpart (frag : Text) : Text := if frag ≠ [] then 35 :: frag else []
 
@@ -642,30 +651,46 @@ theorem stopHead_tail1 {p : Nat → Bool} (h47 : p 47 = false) (h63 : p 63 = fal
     · simp at h; subst h; exact stopHead_cons _ h47
 
 structure Scanned (t scheme auth path qs frag : Text) : Prop where
-  scheme : schemeOf t = some scheme
+  scheme : (schemeOf t).getD [] = scheme
   auth : authorityOf (afterScheme t) = some auth
   path : pathOf (afterAuthority (afterScheme t)) = path
   query : (queryOf (afterPath (afterAuthority (afterScheme t)))).getD [] = qs
   frag : (fragmentOf (afterQuery (afterPath (afterAuthority (afterScheme t))))).getD [] = frag
 
 theorem scan_composed (scheme auth path qs frag : Text)
-    (hs_ne : scheme ≠ []) (hs : ∀ c ∈ scheme, notIn schemeStop c = true)
+    (hs : ∀ c ∈ scheme, notIn schemeStop c = true)
     (ha : ∀ c ∈ auth, notIn authStop c = true)
     (hp : ∀ c ∈ path, notIn pathStop c = true) (hp0 : path = [] ∨ path.head? = some 47)
     (hq : ∀ c ∈ qs, notIn queryStop c = true)
     (hf : ∀ c ∈ frag, notIn fragStop c = true) :
-    Scanned (scheme ++ 58 :: 47 :: 47 :: (auth ++ (path ++ (qpart qs ++ fpart frag)))) scheme auth path qs frag := by
+    Scanned (spart scheme ++ 47 :: 47 :: (auth ++ (path ++ (qpart qs ++ fpart frag)))) scheme auth path qs frag := by
   obtain ⟨s58, a47, a63, a35, p63, p35, p47, q35, q38, q61⟩ := stops_ok
-  have e1 : (scheme ++ 58 :: 47 :: 47 :: (auth ++ (path ++ (qpart qs ++ fpart frag)))).takeWhile (notIn schemeStop) = scheme :=
-    takeWhile_append_stop hs (stopHead_cons _ s58)
-  have e2 : (scheme ++ 58 :: 47 :: 47 :: (auth ++ (path ++ (qpart qs ++ fpart frag)))).dropWhile (notIn schemeStop)
-      = 58 :: 47 :: 47 :: (auth ++ (path ++ (qpart qs ++ fpart frag))) :=
-    dropWhile_append_stop hs (stopHead_cons _ s58)
-  have hS : schemeOf (scheme ++ 58 :: 47 :: 47 :: (auth ++ (path ++ (qpart qs ++ fpart frag)))) = some scheme := by
-    unfold schemeOf; rw [e2]; simp only [e1]; simp [hs_ne]
-  have hA : afterScheme (scheme ++ 58 :: 47 :: 47 :: (auth ++ (path ++ (qpart qs ++ fpart frag))))
-      = 47 :: 47 :: (auth ++ (path ++ (qpart qs ++ fpart frag))) := by
-    unfold afterScheme; rw [e2]; simp only [e1]; simp [hs_ne]
+  have hSA : (schemeOf (spart scheme ++ 47 :: 47 :: (auth ++ (path ++ (qpart qs ++ fpart frag))))).getD [] = scheme ∧
+      afterScheme (spart scheme ++ 47 :: 47 :: (auth ++ (path ++ (qpart qs ++ fpart frag))))
+        = 47 :: 47 :: (auth ++ (path ++ (qpart qs ++ fpart frag))) := by
+    by_cases hs_ne : scheme = []
+    · subst hs_ne
+      have hd : (47 :: 47 :: (auth ++ (path ++ (qpart qs ++ fpart frag)))).dropWhile (notIn schemeStop)
+          = 47 :: 47 :: (auth ++ (path ++ (qpart qs ++ fpart frag))) := by
+        simp [List.dropWhile, stops_ok2.1]
+      simp only [spart, ne_eq, not_true_eq_false, if_false, List.nil_append]
+      constructor
+      · unfold schemeOf; rw [hd]; rfl
+      · unfold afterScheme; rw [hd]; rfl
+    · have hsp : spart scheme ++ 47 :: 47 :: (auth ++ (path ++ (qpart qs ++ fpart frag)))
+          = scheme ++ 58 :: 47 :: 47 :: (auth ++ (path ++ (qpart qs ++ fpart frag))) := by
+        simp [spart, hs_ne]
+      rw [hsp]
+      have e1 : (scheme ++ 58 :: 47 :: 47 :: (auth ++ (path ++ (qpart qs ++ fpart frag)))).takeWhile (notIn schemeStop) = scheme :=
+        takeWhile_append_stop hs (stopHead_cons _ s58)
+      have e2 : (scheme ++ 58 :: 47 :: 47 :: (auth ++ (path ++ (qpart qs ++ fpart frag)))).dropWhile (notIn schemeStop)
+          = 58 :: 47 :: 47 :: (auth ++ (path ++ (qpart qs ++ fpart frag))) :=
+        dropWhile_append_stop hs (stopHead_cons _ s58)
+      constructor
+      · unfold schemeOf; rw [e2]; simp only [e1]; simp [hs_ne]
+      · unfold afterScheme; rw [e2]; simp only [e1]; simp [hs_ne]
+  have hS := hSA.1
+  have hA := hSA.2
   have t1 := stopHead_tail1 a47 a63 a35 path qs frag hp0
   have hAu : authorityOf (47 :: 47 :: (auth ++ (path ++ (qpart qs ++ fpart frag)))) = some auth := by
     simp only [authorityOf]; rw [takeWhile_append_stop ha t1]
